@@ -144,20 +144,46 @@ def withsVal : Option (List WithTable) → Val
 def selectCols : List (Expr × Option String) → List Val
   | [] => []
   | (e, a) :: r => .node "ASTSelectColumn" [("value", e.toVal), ("alias", alias a)] :: selectCols r
+/- the optional clauses of a SELECT are named functions (not inline `match`es) so that `Select.toVal` has a
+   small defining equation: with eight inline matches Lean cannot generate its equation lemma -/
+def fromClauseVal : Option (List FromTable) → Val
+  | .none => .none
+  | .some l => .node "ASTFromClause" [("tables", .tuple (fromTables l))]
+def whereClauseVal : Option Expr → Val
+  | .none => .none
+  | .some e => .node "ASTWhereClause" [("condition", e.toVal)]
+def groupByClauseVal : Option GroupBy → Val
+  | .none => .none
+  | .some g => g.toVal
+def havingClauseVal : Option Expr → Val
+  | .none => .none
+  | .some e => .node "ASTHavingClause" [("condition", e.toVal)]
+def orderByClauseVal : Option (List OrderItem) → Val
+  | .none => .none
+  | .some l => .node "ASTOrderByClause" [("columns", .tuple (orders l))]
+def sortByClauseVal : Option (List OrderItem) → Val
+  | .none => .none
+  | .some l => .node "ASTSortByClause" [("columns", .tuple (orders l))]
+def distributeByClauseVal : Option (List Expr) → Val
+  | .none => .none
+  | .some l => .node "ASTDistributeByClause" [("columns", .tuple (exprs l))]
+def clusterByClauseVal : Option (List Expr) → Val
+  | .none => .none
+  | .some l => .node "ASTClusterByClause" [("columns", .tuple (exprs l))]
 def Select.toVal : Select → Val
   | .mk ws dist cols fr lats js wh gb hv ob sb db cb lm =>
     .node "ASTSingleSelectStatement" [("with_clause", withsVal ws),
       ("select_clause", .node "ASTSelectClause" [("distinct", .bool dist), ("columns", .tuple (selectCols cols))]),
-      ("from_clause", match fr with | .none => .none | .some l => .node "ASTFromClause" [("tables", .tuple (fromTables l))]),
+      ("from_clause", fromClauseVal fr),
       ("lateral_view_clauses", .tuple (laterals lats)),
       ("join_clauses", .tuple (joins js)),
-      ("where_clause", match wh with | .none => .none | .some e => .node "ASTWhereClause" [("condition", e.toVal)]),
-      ("group_by_clause", match gb with | .none => .none | .some g => g.toVal),
-      ("having_clause", match hv with | .none => .none | .some e => .node "ASTHavingClause" [("condition", e.toVal)]),
-      ("order_by_clause", match ob with | .none => .none | .some l => .node "ASTOrderByClause" [("columns", .tuple (orders l))]),
-      ("sort_by_clause", match sb with | .none => .none | .some l => .node "ASTSortByClause" [("columns", .tuple (orders l))]),
-      ("distribute_by_clause", match db with | .none => .none | .some l => .node "ASTDistributeByClause" [("columns", .tuple (exprs l))]),
-      ("cluster_by_clause", match cb with | .none => .none | .some l => .node "ASTClusterByClause" [("columns", .tuple (exprs l))]),
+      ("where_clause", whereClauseVal wh),
+      ("group_by_clause", groupByClauseVal gb),
+      ("having_clause", havingClauseVal hv),
+      ("order_by_clause", orderByClauseVal ob),
+      ("sort_by_clause", sortByClauseVal sb),
+      ("distribute_by_clause", distributeByClauseVal db),
+      ("cluster_by_clause", clusterByClauseVal cb),
       ("limit_clause", limitVal lm)]
 def unionElems : List (String × Select) → List Val
   | [] => []
